@@ -225,3 +225,78 @@ mod verif_kani {
         kani::cover!(hi != 0);
     }
 }
+
+#[cfg(kani)]
+pub(crate) mod verif_tokens {
+    use super::*;
+
+    // ---- callee contracts of the element encoders as *recording token stubs*: the k-th call records its argument and
+    // returns the one-byte string [k].  A caller's output is then a list of tokens, and its postcondition can state which
+    // value sits at which position.  (That the real encoders produce the Yellow-Paper encoding of those values is C07.)
+    pub static mut CALLS: usize = 0;
+    pub static mut KIND: [u8; 24] = [0; 24]; // 1 = uint, 2 = bytes, 3 = access list
+    pub static mut UVAL: [(u128, u128); 24] = [(0, 0); 24];
+    pub static mut BLEN: [usize; 24] = [0; 24];
+    pub static mut BVAL: [[u8; 32]; 24] = [[0; 32]; 24];
+    pub static mut APTR: [usize; 24] = [0; 24];
+    pub fn uint_token(value: U256) -> Vec<u8> {
+        unsafe {
+            let k = CALLS;
+            CALLS += 1;
+            if k < 24 {
+                KIND[k] = 1;
+                UVAL[k] = (*value.high(), *value.low());
+            }
+            vec![k as u8]
+        }
+    }
+    pub fn bytes_token(bytes: &[u8]) -> Vec<u8> {
+        unsafe {
+            let k = CALLS;
+            CALLS += 1;
+            if k < 24 {
+                KIND[k] = 2;
+                BLEN[k] = bytes.len();
+                let mut i = 0;
+                while i < bytes.len() && i < 32 {
+                    BVAL[k][i] = bytes[i];
+                    i += 1;
+                }
+            }
+            vec![k as u8]
+        }
+    }
+    pub fn access_list_token(this: &crate::transaction::accesslist::AccessList) -> Vec<u8> {
+        unsafe {
+            let k = CALLS;
+            CALLS += 1;
+            if k < 24 {
+                KIND[k] = 3;
+                APTR[k] = this as *const _ as usize;
+            }
+            vec![k as u8]
+        }
+    }
+    pub fn is_uint(tok: u8, v: U256) -> bool {
+        let k = tok as usize;
+        k < 24 && unsafe { KIND[k] == 1 && UVAL[k] == (*v.high(), *v.low()) }
+    }
+    pub fn is_bytes(tok: u8, b: &[u8]) -> bool {
+        let k = tok as usize;
+        if !(k < 24 && unsafe { KIND[k] == 2 && BLEN[k] == b.len() }) {
+            return false;
+        }
+        let mut i = 0;
+        while i < b.len() && i < 32 {
+            if unsafe { BVAL[k][i] } != b[i] {
+                return false;
+            }
+            i += 1;
+        }
+        true
+    }
+    pub fn is_access_list(tok: u8, a: &crate::transaction::accesslist::AccessList) -> bool {
+        let k = tok as usize;
+        k < 24 && unsafe { KIND[k] == 3 && APTR[k] == a as *const _ as usize }
+    }
+}
